@@ -124,5 +124,34 @@ def r02_8(ctx):
 r02_8.rule_id = "R02.8"
 
 
-RULES = [r02_1, r02_2, r02_3, r02_4, r02_5, r02_6, r02_7, r02_8]
-FLOORS = {"R02.1": 2, "R02.2": 12, "R02.3": 4, "R02.4": 4, "R02.4a": 2, "R02.5": 5, "R02.6": 2, "R02.7": 4, "R02.8": 1}
+def r02_9(ctx):
+    """a guard extension block handed out by hp_allocator::alloc() - recycled from the free list or fresh - has its guards linked into a
+    null-terminated chain inside the block: links left over from the previous owner (guards may be released out of order across blocks) point at
+    guards that other blocks / owners now use"""
+    from sa.pathsim import PathSim, NULL
+    from sa.cfg import cfg_of
+    from sa.q import sv_field_path, strip_sv
+    F = ctx.need("cds::gc::dhp::hp_allocator::alloc")[0]
+    cfg = cfg_of(F)
+    link_loops = []
+    for h, body in cfg.loops().items():
+        for b in body:
+            for e in F.blocks[b].elems:
+                if e.get("k") == "bin" and e.get("op") == "=" and "next_" in F.text(F.deref(e["lhs"])):
+                    link_loops.append(h)
+    n = 0
+    for p in PathSim(F, bound=512).run():
+        if p.outcome != "return":
+            continue
+        n += 1
+        visited = any(h in p.blocks for h in link_loops)
+        term = [e for e in p.events if e.kind == "store" and sv_field_path(e.obj)[-1:] == ["next_"] and e.val == NULL]
+        ctx.check(bool(link_loops) and visited and bool(term), "R02.9", F, "every block returned by hp_allocator::alloc() passes through the loop that links its guards and gets a null terminator", None,
+                  detail="link loop visited: %s, terminator stored: %s. %s" % (visited, bool(term), R), sig="block-relinked")
+    if n < 2:
+        ctx.broken("hp_allocator::alloc return paths not found")
+r02_9.rule_id = "R02.9"
+
+
+RULES = [r02_1, r02_2, r02_3, r02_4, r02_5, r02_6, r02_7, r02_8, r02_9]
+FLOORS = {"R02.1": 2, "R02.2": 12, "R02.3": 4, "R02.4": 4, "R02.4a": 2, "R02.5": 5, "R02.6": 2, "R02.7": 4, "R02.8": 1, "R02.9": 2}
